@@ -5,13 +5,13 @@ and which checks fire on it), then remove the scratch worktree and its build out
 import json, os, re, shutil, subprocess, sys
 pid = sys.argv[1]
 also = [a for a in sys.argv[2:] if not a.startswith('--')]
-rnd = 10 if '--round10' in sys.argv else 9 if '--round9' in sys.argv else 8 if '--round8' in sys.argv else 7 if '--round7' in sys.argv else 6 if '--round6' in sys.argv else 5 if '--round5' in sys.argv else 4 if '--round4' in sys.argv else (3 if '--round3' in sys.argv else (2 if '--round2' in sys.argv else 1))
-base = {1: '/tmp/seed/%s', 2: '/tmp/seed2/%s', 3: '/tmp/seed3/%s', 4: '/tmp/seed4/%s', 5: '/tmp/seed5/%s', 6: '/tmp/seed6/%s', 7: '/tmp/seed7/%s', 8: '/tmp/seed8/%s', 9: '/tmp/seed9/%s', 10: '/tmp/seed10/%s'}[rnd] % pid
+rnd = 11 if '--round11' in sys.argv else 10 if '--round10' in sys.argv else 9 if '--round9' in sys.argv else 8 if '--round8' in sys.argv else 7 if '--round7' in sys.argv else 6 if '--round6' in sys.argv else 5 if '--round5' in sys.argv else 4 if '--round4' in sys.argv else (3 if '--round3' in sys.argv else (2 if '--round2' in sys.argv else 1))
+base = {1: '/tmp/seed/%s', 2: '/tmp/seed2/%s', 3: '/tmp/seed3/%s', 4: '/tmp/seed4/%s', 5: '/tmp/seed5/%s', 6: '/tmp/seed6/%s', 7: '/tmp/seed7/%s', 8: '/tmp/seed8/%s', 9: '/tmp/seed9/%s', 10: '/tmp/seed10/%s', 11: '/tmp/seed11/%s'}[rnd] % pid
 wt = base + '/wt'
 out = base + '/out'
-dst = '/verif/seeded/%s%s' % (pid, {1: '', 2: '-r2', 3: '-r3', 4: '-r4', 5: '-r5', 6: '-r6', 7: '-r7', 8: '-r8', 9: '-r9', 10: '-r10'}[rnd])
+dst = '/verif/seeded/%s%s' % (pid, {1: '', 2: '-r2', 3: '-r3', 4: '-r4', 5: '-r5', 6: '-r6', 7: '-r7', 8: '-r8', 9: '-r9', 10: '-r10', 11: '-r11'}[rnd])
 confirm = None
-for f in ('/tmp/seed/confirm_batch1.txt', '/tmp/seed/confirm_batch2.txt', '/tmp/seed/confirm_batch3.txt', '/tmp/seed/confirm_batch4.txt', '/tmp/seed/confirm_batch5.txt', '/tmp/seed/confirm_batch6.txt', '/tmp/seed2/confirm.txt', '/tmp/seed3/confirm.txt', '/tmp/seed4/confirm.txt', '/tmp/seed5/confirm.txt', '/tmp/seed6/confirm.txt', '/tmp/seed7/confirm.txt', '/tmp/seed8/confirm.txt', '/tmp/seed9/confirm.txt', '/tmp/seed10/confirm.txt', base + '/confirm.txt'):
+for f in ('/tmp/seed/confirm_batch1.txt', '/tmp/seed/confirm_batch2.txt', '/tmp/seed/confirm_batch3.txt', '/tmp/seed/confirm_batch4.txt', '/tmp/seed/confirm_batch5.txt', '/tmp/seed/confirm_batch6.txt', '/tmp/seed2/confirm.txt', '/tmp/seed3/confirm.txt', '/tmp/seed4/confirm.txt', '/tmp/seed5/confirm.txt', '/tmp/seed6/confirm.txt', '/tmp/seed7/confirm.txt', '/tmp/seed8/confirm.txt', '/tmp/seed9/confirm.txt', '/tmp/seed10/confirm.txt', '/tmp/seed11/confirm.txt', base + '/confirm.txt'):
     if not f.startswith(os.path.dirname(base)) or (rnd == 1 and f.startswith('/tmp/seed2')) or (rnd == 1 and f.startswith('/tmp/seed3')) or (rnd == 1 and f.startswith('/tmp/seed4')):
         continue
     if os.path.exists(f):
